@@ -149,8 +149,145 @@ theorem esc_loop (fuel : Nat) : ∀ (xs : List UInt8) (st : St) (d : Bytes), st.
     have hg2 : (st.env.set "s" (.u8 x)).get "s" = some (.u8 x) := by simp
     have hstep := escBody_step fuel ⟨st.env.set "s" (.u8 x), st.tape⟩ d x hg1 hg2
     obtain ⟨st', h1, h2, h3⟩ := ih ⟨(st.env.set "s" (.u8 x)).set "dst" (.bytes (stepB d x)), st.tape⟩ (stepB d x) (by simp)
-    refine ⟨st', ?_, h2, h3⟩
+    refine ⟨st', ?_, h2, by rw [List.foldl_cons]; exact h3⟩
     rw [execRange_cons]
     rcases hstep with h | h <;> rw [h] <;> exact h1
+
+
+/-! ## the scanning loop: find the first byte that needs escaping, copy the clean prefix, re-slice `src` -/
+
+/-- one iteration of the first loop on a clean byte -/
+theorem scanBody_clean (fuel : Nat) (st : St) (x : UInt8) (hs : st.env.get "s" = some (.u8 x))
+    (hc : shouldEscape x = false) : exec goFuns fuel scanBody st = .normal st := by
+  simp [scanBody, goescapeBytes, hs, tbl_se, hc]
+
+/-- one iteration of the first loop on a byte that needs escaping -/
+theorem scanBody_esc (fuel : Nat) (st : St) (src dst : Bytes) (k : Nat) (x : UInt8)
+    (hs : st.env.get "s" = some (.u8 x)) (hi : st.env.get "i" = some (.int k))
+    (hsrc : st.env.get "src" = some (.bytes src)) (hdst : st.env.get "dst" = some (.bytes dst))
+    (hk : k ≤ src.size) (hc : shouldEscape x = true) :
+    ∃ e', exec goFuns fuel scanBody st = .brk ⟨e', st.tape⟩ ∧ e'.get "esc" = some (.bool true) ∧
+      e'.get "dst" = some (.bytes (dst ++ src.extract 0 k)) ∧ e'.get "src" = some (.bytes (src.extract k src.size)) := by
+  by_cases h0 : k = 0
+  · subst h0
+    refine ⟨st.env.set "esc" (.bool true), ?_, by simp, by simp [hdst], by simp [hsrc]⟩
+    simp [scanBody, goescapeBytes, hs, hi, tbl_se, hc]
+  · have hk0 : (0 : Int) < k := by omega
+    have hk1 : (k : Int) ≤ src.size := by omega
+    have hk2 : 0 < k := by omega
+    refine ⟨((st.env.set "dst" (.bytes (dst ++ src.extract 0 k))).set "src" (.bytes (src.extract k src.size))).set "esc"
+      (.bool true), ?_, by simp, by simp, by simp⟩
+    simp [scanBody, goescapeBytes, hs, hi, hsrc, hdst, tbl_se, hc, hk0, hk1, hk2]
+
+
+/-- the first loop, from index `k` over the remaining bytes `xs`: either every byte is clean and nothing changes, or the
+    loop stops at the first escaping byte with the clean prefix appended to `dst` and `src` re-sliced -/
+theorem scan_loop (fuel : Nat) (src dst : Bytes) : ∀ (xs : List UInt8) (k : Nat) (st : St),
+    k + xs.length = src.size →
+    st.env.get "src" = some (.bytes src) → st.env.get "dst" = some (.bytes dst) →
+    st.env.get "esc" = some (.bool false) →
+    ∃ st', execRangeI goFuns fuel "i" "s" k xs scanBody st = .normal st' ∧ st'.tape = st.tape ∧
+      (((∀ x ∈ xs, shouldEscape x = false) ∧ st'.env.get "esc" = some (.bool false) ∧
+          st'.env.get "dst" = some (.bytes dst) ∧ st'.env.get "src" = some (.bytes src)) ∨
+       (∃ pre b post, xs = pre ++ b :: post ∧ (∀ x ∈ pre, shouldEscape x = false) ∧ shouldEscape b = true ∧
+          st'.env.get "esc" = some (.bool true) ∧
+          st'.env.get "dst" = some (.bytes (dst ++ src.extract 0 (k + pre.length))) ∧
+          st'.env.get "src" = some (.bytes (src.extract (k + pre.length) src.size)))) := by
+  intro xs
+  induction xs with
+  | nil =>
+    intro k st hk h1 h2 h3
+    exact ⟨st, execRangeI_nil .., rfl, .inl ⟨by simp, h3, h2, h1⟩⟩
+  | cons x r ih =>
+    intro k st hk h1 h2 h3
+    have hg1 : ((st.env.set "i" (.int k)).set "s" (.u8 x)).get "s" = some (.u8 x) := by simp
+    have hg2 : ((st.env.set "i" (.int k)).set "s" (.u8 x)).get "i" = some (.int k) := by simp
+    have hg3 : ((st.env.set "i" (.int k)).set "s" (.u8 x)).get "src" = some (.bytes src) := by simp [h1]
+    have hg4 : ((st.env.set "i" (.int k)).set "s" (.u8 x)).get "dst" = some (.bytes dst) := by simp [h2]
+    have hg5 : ((st.env.set "i" (.int k)).set "s" (.u8 x)).get "esc" = some (.bool false) := by simp [h3]
+    rw [execRangeI_cons]
+    by_cases hc : shouldEscape x = true
+    · obtain ⟨e', he, e1, e2, e3⟩ := scanBody_esc fuel ⟨(st.env.set "i" (.int k)).set "s" (.u8 x), st.tape⟩ src dst k x
+        hg1 hg2 hg3 hg4 (by simp at hk; omega) hc
+      rw [he]
+      exact ⟨⟨e', st.tape⟩, rfl, rfl, .inr ⟨[], x, r, rfl, by simp, hc, e1, by simpa using e2, by simpa using e3⟩⟩
+    · have hc' : shouldEscape x = false := by simpa using hc
+      rw [scanBody_clean fuel ⟨(st.env.set "i" (.int k)).set "s" (.u8 x), st.tape⟩ x hg1 hc']
+      obtain ⟨st', r1, r2, r3⟩ := ih (k + 1) ⟨(st.env.set "i" (.int k)).set "s" (.u8 x), st.tape⟩
+        (by simp at hk ⊢; omega) hg3 hg4 hg5
+      refine ⟨st', r1, r2, ?_⟩
+      rcases r3 with ⟨a1, a2, a3, a4⟩ | ⟨pre, b, post, b1, b2, b3, b4, b5, b6⟩
+      · left
+        refine ⟨?_, a2, a3, a4⟩
+        intro y hy
+        rcases List.mem_cons.mp hy with rfl | hy
+        · exact hc'
+        · exact a1 y hy
+      · right
+        refine ⟨x :: pre, b, post, by simp [b1], ?_, b3, b4, ?_, ?_⟩
+        · intro y hy
+          rcases List.mem_cons.mp hy with rfl | hy
+          · exact hc'
+          · exact b2 y hy
+        · rw [b5, List.length_cons, show k + 1 + pre.length = k + (pre.length + 1) by omega]
+        · rw [b6, List.length_cons, show k + 1 + pre.length = k + (pre.length + 1) by omega]
+
+
+/-! ## the whole function -/
+
+theorem exec_cons (funs : String → Option FunDef) (fuel : Nat) (st : Stmt) (rest : List Stmt) (s : St) :
+    exec funs fuel (st :: rest) s = match exec1 funs fuel st s with | .normal s' => exec funs fuel rest s' | o => o := by
+  rw [exec]; cases exec1 funs fuel st s <;> rfl
+
+theorem extract_prefix (pre post : List UInt8) : (pre ++ post).toArray.extract 0 pre.length = pre.toArray := by
+  apply Array.toList_inj.mp
+  simp
+
+theorem extract_suffix (pre post : List UInt8) :
+    ((pre ++ post).toArray.extract pre.length (pre ++ post).toArray.size).toList = post := by
+  simp
+
+/-- **`escapeBytes`**: the regenerated Go function, run on any `dst`, `src`, returns exactly the model's fold; it never
+    panics, is never stuck and needs no fuel (both loops are `range` loops). -/
+theorem escapeBytes_sim (dst src : Bytes) (fuel : Nat) (tape : Array UInt64) :
+    ∃ s, runFun goFuns goescapeBytes fuel ⟨[("dst", .bytes dst), ("src", .bytes src)], tape⟩ =
+      .ret s [.bytes (escapeBytes dst src)] ∧ s.tape = tape := by
+  obtain ⟨st2, hrun, htape, hcase⟩ := scan_loop fuel src dst src.toList 0
+    ⟨[("dst", .bytes dst), ("src", .bytes src), ("esc", .bool false)], tape⟩ (by simp) (by simp [Env.get]) (by simp [Env.get])
+    (by simp [Env.get])
+  have hA : exec1 goFuns fuel (.assign "esc" (.bool false)) ⟨[("dst", .bytes dst), ("src", .bytes src)], tape⟩ =
+      .normal ⟨[("dst", .bytes dst), ("src", .bytes src), ("esc", .bool false)], tape⟩ := by
+    simp [Env.set]
+  have hB : exec1 goFuns fuel (.rangeIB "i" "s" (.v "src") scanBody)
+      ⟨[("dst", .bytes dst), ("src", .bytes src), ("esc", .bool false)], tape⟩ = .normal st2 := by
+    rw [exec1]; simp only [evalE, Env.get]; simpa using hrun
+  rw [runFun, body_eq, exec_cons, hA]
+  simp only []
+  rw [exec_cons, hB]
+  simp only []
+  rw [exec_cons]
+  rcases hcase with ⟨a1, a2, a3, a4⟩ | ⟨pre, b, post, b1, b2, b3, b4, b5, b6⟩
+  · have hC : exec1 goFuns fuel (.ite (.not (.v "esc")) [.ret [(.appendB (.v "dst") (.v "src"))]] []) st2 =
+        .ret st2 [.bytes (dst ++ src)] := by
+      simp [a2, a3, a4]
+    rw [hC]
+    refine ⟨st2, ?_, htape⟩
+    rw [escapeBytes_eq_foldl, foldl_clean _ a1]
+  · have hC : exec1 goFuns fuel (.ite (.not (.v "esc")) [.ret [(.appendB (.v "dst") (.v "src"))]] []) st2 =
+        .normal st2 := by
+      simp [b4]
+    rw [hC]
+    simp only []
+    obtain ⟨st3, c1, c2, c3⟩ := esc_loop fuel (src.extract (0 + pre.length) src.size).toList st2 _ b5
+    have hD : exec1 goFuns fuel (.rangeB "s" (.v "src") escBody) st2 = .normal st3 := by
+      rw [exec1]; simp only [evalE, b6]; exact c1
+    rw [exec_cons, hD]
+    simp only []
+    refine ⟨st3, ?_, by rw [c2, htape]⟩
+    have hsrc : src = (pre ++ b :: post).toArray := by rw [← b1]
+    rw [escapeBytes_eq_foldl]
+    rw [hsrc] at c3 ⊢
+    rw [Nat.zero_add, extract_prefix, extract_suffix] at c3
+    simp [c3, foldl_clean _ b2]
 
 end SJ.GoEscape
